@@ -25,6 +25,11 @@
       record under one lock section ⇒ the stored set is exactly the acknowledged appends in acquisition order;
       `rmw_lost_update_refuted` / `rmw_outcomes_unlocked`: without a lock spanning the three steps an acknowledged
       append is lost (read-read-write-write; 4 of the 6 merges).
+    * `cta_no_stale_decision` (FULL under the discipline with the read of the head inside the section): no
+      `MineBlock` acts on a head another call has moved; `cta_stale_decision_refuted` / `cta_outcomes_unlocked`:
+      with the read before the lock the outcome (mined on P, head B) equals no sequential order;
+      `table_head_decisions`: on the code every head read of the chain-lock functions is inside the section except
+      the declared pre-check `InsertBlock/isIgnorableBlock`.
     * `table_discipline`: by `decide` over the committed table, ALL nine shared variables satisfy the discipline on
       the current code (sigCache under `consensus.sigCacheMu` since f4ffd1d, lastSig under `Confirmer.lastSigLock`
       since 204ebea, the unconfirmed tree under `ChainDatabase.RW` since a25165d, `FileQueue.Offset` under
@@ -472,8 +477,104 @@ theorem rmw_outcomes_unlocked :
     dedup ((merges 2 2).map (fun m => (rmwOutcome m).1)) = [[1, 2], [2], [1], [2, 1]] ∧
     ((merges 2 2).filter (fun m => (rmwOutcome m).1.length < 2)).length = 4 := by decide
 
+/-! ### check-then-act on the fork head (`MineBlock` against `InsertBlock`) -/
+
+/-- every mining decision was checked against the head the block was then built on and stored under -/
+def CInv (s : CS) : Prop := ∀ d ∈ s.decisions, d.1 = d.2
+
+theorem ctaMine_seq (i : Nat) (s : CS) (h : CInv s) : CInv (runSteps (ctaMineSteps i) s) := by
+  unfold CInv at *
+  simp only [ctaMineSteps, runSteps, List.foldl_cons, List.foldl_nil]
+  unfold ctaAct
+  simp only [ctaRead, if_true]
+  split
+  · intro d hd
+    simp only [List.mem_cons] at hd
+    rcases hd with rfl | hd
+    · rfl
+    · exact h d hd
+  · exact h
+
+theorem ctaInsert_seq (s : CS) (h : CInv s) : CInv (runSteps [ctaInsert] s) := by
+  unfold CInv at *
+  simpa [runSteps, ctaInsert] using h
+
+theorem cinv_runSecs (secs : List (List (CS → CS))) (s : CS) (hs : CInv s)
+    (hq : ∀ fs ∈ secs, (∃ i, fs = ctaMineSteps i) ∨ fs = [ctaInsert]) : CInv (runSecs secs s) := by
+  induction secs generalizing s with
+  | nil => exact hs
+  | cons fs r ih =>
+    have hr := fun fs' hf => hq fs' (List.mem_cons_of_mem _ hf)
+    rcases hq _ List.mem_cons_self with ⟨i, rfl⟩ | rfl
+    · exact ih _ (ctaMine_seq i s hs) hr
+    · exact ih _ (ctaInsert_seq s hs) hr
+
+/-- **cta_no_stale_decision** (the read of the head INSIDE the chain-lock section; any number of threads, thread
+    `i` issuing the engine calls `calls i` — `true` = MineBlock, `false` = InsertBlock(B) — one after the other;
+    every schedule).  Whenever the lock is free the state is the sequential composition of the begun calls in
+    lock-acquisition order (`drf_of_discipline`), hence every block the node mined was checked against, built on
+    and stored under ONE value of the head: no MineBlock ever acts on a head that an InsertBlock has moved in
+    between. -/
+theorem cta_no_stale_decision (calls : Nat → List Bool) (sch : List Nat) :
+    let c := exec (init ({} : CS) (fun i => (calls i).map (ctaSec i))) sch
+    c.owner = none → ∀ d ∈ c.st.decisions, d.1 = d.2 := by
+  intro c ho
+  have hd := (drf_of_discipline ({} : CS) (fun i => (calls i).map (ctaSec i))
+    (by
+      intro i sec h
+      simp only [List.mem_map] at h
+      obtain ⟨b, _, rfl⟩ := h
+      cases b <;> rfl) sch).1 ho
+  have hq : ∀ fs ∈ c.log, (∃ i, fs = ctaMineSteps i) ∨ fs = [ctaInsert] := by
+    apply log_from_progs (fun fs => (∃ i, fs = ctaMineSteps i) ∨ fs = [ctaInsert]) sch
+    · intro i sec h
+      simp only [init, List.mem_map] at h
+      obtain ⟨b, _, rfl⟩ := h
+      cases b
+      · exact Or.inr rfl
+      · exact Or.inl ⟨i, rfl⟩
+    · intro fs h; simp [init] at h
+  have hinv : CInv c.st := by
+    rw [hd.2]
+    apply cinv_runSecs
+    · intro d hd; cases hd
+    · intro fs hfs; exact hq fs (List.mem_reverse.mp hfs)
+  exact hinv
+
+/-- the two sequential orders of one MineBlock and one InsertBlock(B): (mined on, failed, head) -/
+theorem cta_sequential_outcomes :
+    ctaOutcome (runSteps ([ctaInsert] ++ ctaMineSteps 0) {}) = ([], 1, 1) ∧
+    ctaOutcome (runSteps (ctaMineSteps 0 ++ [ctaInsert]) {}) = ([0], 0, 2) := by decide
+
+/-- non-vacuity: both calls locked, MineBlock blocked on the lock while InsertBlock(B) is inside: the outcome is
+    the sequential Insert → Mine one (not in turn on B) -/
+example :
+    let c := exec (init ({} : CS) (fun i => if i = 0 then [ctaSec 0 true] else if i = 1 then [ctaSec 1 false] else []))
+      [1, 0, 0, 1, 0, 1, 0, 0, 0, 0]
+    c.owner = none ∧ ctaOutcome c.st = ([], 1, 1) ∧ c.st.decisions = [] := by decide
+
+/-- **REFUTATION with the read BEFORE the lock** (the seeded variant "log the height before queueing on the chain
+    lock"; general machine): MineBlock reads head = P without the lock, InsertBlock(B) runs under the lock and moves
+    the head to B, MineBlock then takes the lock and acts on what it read: it mines a child of P while the head is
+    B — decision (P, B), outcome (mined on P, head B), which is neither sequential outcome. -/
+theorem cta_stale_decision_refuted :
+    ∃ sch : List Nat,
+      let c := exec (init ({} : CS) (fun i => if i = 0 then ctaMineOutside 0 else if i = 1 then [ctaSec 1 false] else [])) sch
+      c.st.decisions = [(0, 1)] ∧ ctaOutcome c.st = ([0], 0, 1) ∧
+        (∀ j, j < 2 → ((c.ts j).cur.isNone ∧ (c.ts j).todo.isEmpty)) :=
+  ⟨[0, 0, 0, 1, 1, 1, 0, 0, 0], by decide⟩
+
+/-- **cta_outcomes_unlocked**: the three-row table.  Over ALL merges of an unprotected read + act with one
+    InsertBlock(B): Mine→Insert gives (M on P, head M), Insert→Mine gives (MineBlock fails, head B), and the
+    interleaving read–insert–act gives (M on P, head B): equal to no sequential order. -/
+theorem cta_outcomes_unlocked :
+    (merges 2 1).map ctaOutcomeUnlocked = [([0], 0, 2), ([0], 0, 1), ([], 1, 1)] ∧
+    ctaOutcomeUnlocked [false, true, false] ≠ ctaOutcome (runSteps ([ctaInsert] ++ ctaMineSteps 0) {}) ∧
+    ctaOutcomeUnlocked [false, true, false] ≠ ctaOutcome (runSteps (ctaMineSteps 0 ++ [ctaInsert]) {}) := by decide
+
 /-! ### which premises hold on the code: the committed fact table -/
 
+set_option maxRecDepth 16000 in
 /-- **table_discipline** (current code = /repo with the repairs f4ffd1d `sigCacheMu`, 204ebea
     `Confirmer.lastSigLock`, a25165d RW in the unconfirmed-tree readers, 20ee480 `FileQueue.putLock`): over the
     committed table (= the source, by the per-run correspondence) the lock discipline holds for ALL nine shared
@@ -487,6 +588,7 @@ theorem table_discipline :
     disciplined table .index = true ∧ disciplined table .termList = true ∧
     disciplined table .evilDeputies = true ∧ disciplined table .blockRecord = true := by decide
 
+set_option maxRecDepth 16000 in
 /-- no row of the current table breaks the discipline of any variable -/
 theorem table_no_offenders :
     offenders table .sigCache = [] ∧ offenders table .lastSig = [] ∧ offenders table .head = [] ∧
@@ -494,9 +596,26 @@ theorem table_no_offenders :
     offenders table .index = [] ∧ offenders table .termList = [] ∧ offenders table .evilDeputies = [] ∧
     offenders table .blockRecord = [] := by decide
 
-/-- the only unlocked accesses left are constructor / start-up code (entry "-"), before the object is shared -/
+set_option maxRecDepth 16000 in
+/-- the only unlocked accesses left are constructor / start-up code (entry "-"), before the object is shared, and
+    the declared benign pre-check of `InsertBlock` -/
 theorem table_unlocked_rows_are_startup :
-    (table.filter (fun r => !r.held)).all (fun r => r.kind == .startup) = true := by decide
+    (table.filter (fun r => !r.held)).all (fun r => r.kind == .startup || benignPrechecks.contains r.fn) = true := by
+  decide
+
+set_option maxRecDepth 16000 in
+/-- **table_head_decisions** (the premise of `cta_no_stale_decision` on the code): inside `MineBlock`, `InsertBlock`
+    and `InsertConfirms` every call that reads the fork head or the stable head — directly or through its callees —
+    is made with the chain lock of that function already held, EXCEPT the one declared pre-check
+    `InsertBlock/isIgnorableBlock` (early exit on monotone facts: the block is already stored / its height is not
+    above the stable height; a negative answer is re-validated under the lock by VerifyAndSeal and SetBlock, a
+    positive one only drops the request).  In particular `MineBlock/CurrentBlock` is inside the section. -/
+theorem table_head_decisions :
+    table.all (fun r => r.var != .headDecision || r.held || benignPrechecks.contains r.fn) = true ∧
+    (table.filter (fun r => r.var == .headDecision && !r.held)).map (·.fn) =
+      ["DPoVP.InsertBlock/DPoVP.isIgnorableBlock"] ∧
+    (table.filter (fun r => r.var == .headDecision && r.fn == "DPoVP.MineBlock/DPoVP.CurrentBlock")).map (·.held) =
+      [true] := by decide
 
 /-! #### code BEFORE the repairs (frozen fragment of the table of /repo at 2b30546, i.e. before f4ffd1d,
     204ebea, a25165d, 20ee480): the rows that broke the discipline.  Kept as documentation of why the repairs
